@@ -10,11 +10,12 @@ import os
 import subprocess
 
 ASSUMPTIONS = [
-    "transports obey embedded-io-async: write() never returns Ok(0) for a non-empty buffer; I/O futures are cancel-safe",
+    "transports obey embedded-io-async: I/O futures are cancel-safe; write() returns Ok(0) for a non-empty buffer only in the "
+    "`wzero` runs and only at a packet boundary (the client documents WriteZero as a non-fatal error; mid-packet it is outside the contract)",
     "conformant broker as modelled in harness/src/rnd.rs and spec/Minimq.tla: respects the client's Receive Maximum (8) and "
     "Maximum Packet Size (receive buffer), does not reuse an identifier in flight, acknowledges only what it received apart from "
     "explicitly explored stale/duplicate acknowledgements, reports session-present only if it has the session",
-    "a benign broker does not announce a Maximum Packet Size smaller than a packet it still has a session obligation for (D12)",
+    "a benign broker does not announce a Maximum Packet Size smaller than a packet it still has a session obligation for (what the client does otherwise is known finding D12; liveness properties are judged against brokers that do not)",
     "virtual time: the executor wakes the client no later than the deadline it registered; TLC integers are 32-bit, one run spans < 24 days",
     "QoS 0 publishes are never cancelled (documented as not cancel-safe)",
     "trusted base: TLC 1.8 + CommunityModules Json/IOUtils, the harness executor/SimIo/virtual clock, MqttCodec.tla as transcription of MQTT 5.0",
@@ -80,6 +81,9 @@ PROFILES = {
     "pingcancel": {"time": True, "ska": [1, 2, 3], "p_pend": 0.5, "p_cancel": 0.45, "p_partial": 0.3, "p_no_pingresp": 0.1,
                    "w_poll": 20, "w_recv": 4, "w_pub0": 1, "w_pub1": 1, "w_pub2": 0, "w_sub": 0, "w_unsub": 0, "w_disconnect": 0,
                    "p_drop": 0.0, "p_fault": 0.0, "p_inbound": 0.1, "p_broker_disconnect": 0.0, "calls": 30, "p_delay": 0.3},
+    # a transport whose write accepts nothing now and then (Ok(0)): the client reports it and stays connected
+    "wzero": {"p_wzero": 0.12, "rm": [1, 2, 3, 8], "w_pub1": 8, "w_pub2": 6, "w_pub0": 3, "p_fault": 0.0, "p_drop": 0.03,
+              "p_cancel": 0.05, "calls": 40, "p_inbound": 0.3},
     "wrap": {"w_pub1": 8, "w_pub2": 8, "w_sub": 4, "w_unsub": 3, "rm": [1, 2, 3], "calls": 60, "p_session_loss": 0.02,
              "p_stale": 0.0, "p_setid": 0.7, "p_drop": 0.12, "p_fail_ack": 0.0, "max_conns": 10},
 }
@@ -102,6 +106,7 @@ COMMON = [
     ("ackcancel", BASE_CFGS[:2], 40, 400),
     ("sessions", BASE_CFGS[:3], 45, 450),
     ("pingcancel", [TIME_CFGS[2], TIME_CFGS[4], TIME_CFGS[6]], 30, 300),
+    ("wzero", BASE_CFGS[:3], 30, 300),
 ]
 
 # Edge-cover replay of the specification's state graph: (config, paths sampled in quick tier; thorough = all)
@@ -117,6 +122,7 @@ TWINS = {"quick": 150, "thorough": 3000}
 SPECIFIC = {
     "C01": ["legality", "shapes", "downgrade"],
     "C07": ["downgrade"],
+    "C20": ["replies"],
     "C04": ["vectors", "inbound"],
     "C08": ["vectors", "readersim"],
     "C09": ["shapes", "legality", "downgrade", "arenasim"],
@@ -354,7 +360,7 @@ def gen_twins(kind):
     return gen
 
 
-GENERATORS = {"downgrade": gen_program("downgrade"), "inbound": gen_program("inbound"), "legality": gen_program("legality"), "shapes": gen_program("shapes"), "maxima": gen_program("maxima"),
+GENERATORS = {"replies": gen_program("replies"), "downgrade": gen_program("downgrade"), "inbound": gen_program("inbound"), "legality": gen_program("legality"), "shapes": gen_program("shapes"), "maxima": gen_program("maxima"),
               "twins-aged": gen_aged, "arenasim": gen_arenasim, "readersim": gen_readersim, "timesim": gen_timesim, "vectors": gen_vectors, "twins-stall": gen_twins("stall"), "twins-fragcancel": gen_twins("fragcancel"), "twins-cancel": gen_twins("cancel"), "twins-fragment": gen_twins("fragment"), "common": gen_common, "witness": gen_witness, "cover": gen_cover, "sim": gen_sim}
 
 
